@@ -563,3 +563,26 @@ VARIANTS += [
     V("C01", "benign: alias guard split into nested ifs", VIS, "        if isinstance(mypy_type, mp_types.TypeAliasType) and not mypy_type.is_recursive:\n            mypy_type = mp_types.get_proper_type(mypy_type)\n", "        if isinstance(mypy_type, mp_types.TypeAliasType):\n            if not mypy_type.is_recursive:\n                mypy_type = mp_types.get_proper_type(mypy_type)\n", None),
     V("C07", "benign: unbound name compared with the empty string", MH, "        elif not expr.fullname:", '        elif expr.fullname == "":', None),
 ]
+# ---- round 6: seeded changes and runtime-oracle reports
+VARIANTS += [
+    V("C07", "finally returns replace the returns of the other blocks", MH,
+      "            return_stmts += find_return_stmts_recursive([stmt.body])\n            return_stmts += find_return_stmts_recursive(stmt.handlers)\n            if stmt.else_body:\n                return_stmts += find_return_stmts_recursive(stmt.else_body.body)\n            if stmt.finally_body:\n                return_stmts += find_return_stmts_recursive(stmt.finally_body.body)",
+      "            try_return_stmts = find_return_stmts_recursive([stmt.body, *stmt.handlers])\n            if stmt.else_body:\n                try_return_stmts += find_return_stmts_recursive(stmt.else_body.body)\n            finally_return_stmts = find_return_stmts_recursive(stmt.finally_body.body) if stmt.finally_body else []\n            return_stmts += finally_return_stmts or try_return_stmts",
+      "C07.RETURN-FINDER"),
+    V("C07", "benign: try blocks collected into a local list first", MH,
+      "            return_stmts += find_return_stmts_recursive([stmt.body])\n            return_stmts += find_return_stmts_recursive(stmt.handlers)\n",
+      "            try_return_stmts = find_return_stmts_recursive([stmt.body, *stmt.handlers])\n            return_stmts += try_return_stmts\n", None),
+    V("C05", "flattened union members de-duplicated by model equality", VIS,
+      "            return sds_types.UnionType(types=[self.mypy_type_to_abstract_type(item) for item in union_items])",
+      "            union_types = [self.mypy_type_to_abstract_type(item) for item in union_items]\n            if len(union_items) > len(mypy_type.items):\n                union_types = [type_ for i, type_ in enumerate(union_types) if type_ not in union_types[:i]]\n            return sds_types.UnionType(types=union_types)",
+      "C05.CTOR-TABLE"),
+    V("C05", "benign: union members translated into a local first", VIS,
+      "            return sds_types.UnionType(types=[self.mypy_type_to_abstract_type(item) for item in union_items])",
+      "            union_types = [self.mypy_type_to_abstract_type(item) for item in union_items]\n            return sds_types.UnionType(types=union_types)", None),
+    V("C03", "member target without node taken for a type variable again", VIS,
+      "            if attribute.node is None and isinstance(attribute, mp_nodes.MemberExpr):", "            if False:", "C03.COVERAGE"),
+    V("C13", "sections collected into a dict keyed by kind", DP,
+      "            for docstring_section in griffe_docstring.parsed:\n                if docstring_section.kind == DocstringSectionKind.text:\n                    # A docstring can have several text sections, e.g. text before and after the parameters\n                    description = f\"{description}\\n\\n{docstring_section.value}\".strip(\"\\n\")\n                elif docstring_section.kind == DocstringSectionKind.examples:\n                    for example_data in docstring_section.value:\n                        examples.append(example_data[1].strip(\"\\n\"))\n",
+      "            sections = {section.kind: section.value for section in griffe_docstring.parsed}\n            description = sections.get(DocstringSectionKind.text, \"\").strip(\"\\n\")\n            examples = [example_data[1].strip(\"\\n\") for example_data in sections.get(DocstringSectionKind.examples, [])]\n",
+      "C13.ACCUMULATE"),
+]
